@@ -1,6 +1,6 @@
 (* C07 (schedules): the theorems — register invariant, linearisability, read_complete,
    no_stale_read, no_lost_update — and examples. *)
-From Coq Require Import List NArith Arith Bool Lia Sorted.
+From Coq Require Import List NArith Arith Bool Lia Sorted Permutation.
 From Coq.Strings Require Import Byte.
 From GI Require Import Gen.LockedFileConsts LockedFile.LockedFile LockedFile.LockBasics
   LockedFile.LockProofs LockedFile.TransformProofs LockedFile.LinBasics LockedFile.LinProofs.
@@ -298,3 +298,112 @@ Example ex7_three_transforms :
   map le_client (lin s 0) = [2; 1; 3; 0] /\
   writers ex7_cfg (lin s 0) = 3 /\ reg s 0 = [x30; x2b; x2b; x2b].
 Proof. vm_compute. repeat split. Qed.
+
+(* ------------------------------------------------------------------ one log entry per client *)
+
+Lemma cnt_zero_notin c L : (forall e, In e L -> le_client e <> c) -> cnt c L = 0.
+Proof.
+  induction L as [|e L IH]; intros H; [reflexivity|].
+  rewrite cnt_cons_other; [apply IH|apply H; now left]. intros e' Hin. apply H. now right.
+Qed.
+
+Theorem one_entry_per_client cfg f s c i :
+  wf_cfg cfg -> reachable cfg f s ->
+  cnt c (lin s i) <= 1 /\ (i <> c_ino (cfg c) -> cnt c (lin s i) = 0).
+Proof.
+  intros Hwf Hr. pose proof (inv07_of_reachable _ _ _ Hwf Hr) as Hinv.
+  assert (Hother : i <> c_ino (cfg c) -> cnt c (lin s i) = 0).
+  { intros Hi. apply cnt_zero_notin. intros e Hin Hc.
+    destruct (j_ent _ _ _ Hinv i e Hin) as [Hino _]. rewrite Hc in Hino. congruence. }
+  split; [|exact Hother].
+  destruct (Nat.eq_dec i (c_ino (cfg c))) as [->|Hi]; [|rewrite (Hother Hi); lia].
+  pose proof (j_ph _ _ _ Hinv c) as Hp. unfold cph7 in Hp.
+  destruct Hp; try lia; try (destruct m; simpl in *; lia).
+Qed.
+
+(* a call that went through Close has exactly one *)
+Theorem completed_call_one_entry cfg f s c x :
+  wf_cfg cfg -> reachable cfg f s -> returned s c x -> status s c = SClosing ->
+  cnt c (lin s (c_ino (cfg c))) = 1.
+Proof.
+  intros Hwf Hr Hret Hst. pose proof (inv07_of_reachable _ _ _ Hwf Hr) as Hinv.
+  pose proof (j_ph _ _ _ Hinv c) as Hp. unfold cph7 in Hp. red in Hret.
+  rewrite Hret, Hst in Hp. remember (Ret x) as p eqn:Ep. remember SClosing as st eqn:Es.
+  destruct Hp; try discriminate Es; try assumption;
+    unfold close_prog in Ep; simpl in Ep; discriminate Ep.
+Qed.
+
+Lemma cnt_In c L e : In e L -> le_client e = c -> 1 <= cnt c L.
+Proof.
+  induction L as [|e' L IH]; intros Hin Hc; [destruct Hin|].
+  destruct Hin as [->|Hin].
+  - unfold cnt. simpl. rewrite Hc, Nat.eqb_refl. simpl. lia.
+  - specialize (IH Hin Hc). unfold cnt in *. simpl. destruct (Nat.eqb _ _); simpl; lia.
+Qed.
+
+Lemma entries_distinct_of_cnt L : (forall c, cnt c L <= 1) -> NoDup (map le_client L).
+Proof.
+  induction L as [|e L IH]; intros H; [constructor|].
+  simpl. constructor.
+  - intros Hin. apply in_map_iff in Hin. destruct Hin as [e' [Hc Hin]].
+    pose proof (cnt_In (le_client e) L e' Hin Hc) as H1.
+    specialize (H (le_client e)). unfold cnt in H, H1. simpl in H.
+    rewrite Nat.eqb_refl in H. simpl in H. lia.
+  - apply IH. intros c. specialize (H c). unfold cnt in *. simpl in H.
+    destruct (Nat.eqb _ _); simpl in H; lia.
+Qed.
+
+Theorem entries_distinct cfg f s i :
+  wf_cfg cfg -> reachable cfg f s -> NoDup (map le_client (lin s i)).
+Proof.
+  intros Hwf Hr. apply entries_distinct_of_cnt. intros c.
+  apply (one_entry_per_client cfg f s c i Hwf Hr).
+Qed.
+
+Lemma NoDup_map_filter {A B} (g : A -> B) (p : A -> bool) l :
+  NoDup (map g l) -> NoDup (map g (filter p l)).
+Proof.
+  induction l as [|a l IH]; simpl; intros H; [constructor|].
+  inversion H as [|? ? Hni Hnd]; subst. destruct (p a); simpl; [|now apply IH].
+  constructor; [|now apply IH]. intros Hin. apply Hni.
+  apply in_map_iff in Hin. destruct Hin as [a' [E Hin]]. apply filter_In in Hin.
+  apply in_map_iff. exists a'. tauto.
+Qed.
+
+(* exactly: when cs lists (once each) the Transform-by-g calls on the inode that have been
+   started, and all of them have returned without error, the register is g^|cs| of the initial
+   contents *)
+Theorem no_lost_update_exact cfg f s i g cs :
+  wf_cfg cfg -> reachable cfg f s ->
+  (forall c, c_ino (cfg c) = i ->
+     c_call (cfg c) = CRead \/ c_call (cfg c) = CTransform (fun b => Some (g b))) ->
+  NoDup cs ->
+  (forall c, In c cs -> c_ino (cfg c) = i /\ c_call (cfg c) = CTransform (fun b => Some (g b)) /\
+                        returned s c ResOk) ->
+  (forall c, c_ino (cfg c) = i -> c_call (cfg c) = CTransform (fun b => Some (g b)) ->
+             ~ In c cs -> t_inv s c = None) ->
+  reg s i = Nat.iter (length cs) g (content_of (f i)).
+Proof.
+  intros Hwf Hr Hcalls Hnd Hcs Hrest.
+  rewrite (no_lost_update cfg f s i g Hwf Hr Hcalls). f_equal.
+  destruct (linearizable cfg f s Hwf Hr) as [Hlog Hdone]. destruct (Hlog i) as [_ [_ Hok]].
+  pose proof (invT_of_reachable _ _ _ Hwf Hr) as HT.
+  unfold writers. rewrite <- (map_length le_client).
+  apply Permutation_length. apply NoDup_Permutation.
+  - apply NoDup_map_filter. now apply (entries_distinct cfg f s i).
+  - exact Hnd.
+  - intros c. split.
+    + intros Hin. apply in_map_iff in Hin. destruct Hin as [e [Hc Hin]].
+      apply filter_In in Hin. destruct Hin as [Hin Hw].
+      destruct (Hok e Hin) as [Hino _]. rewrite Hc in Hino.
+      unfold writer_b in Hw. rewrite Hc in Hw.
+      destruct (Hcalls c Hino) as [Hcall|Hcall].
+      * unfold mode_of in Hw. rewrite Hcall in Hw. discriminate Hw.
+      * destruct (in_dec Nat.eq_dec c cs) as [Hi|Hni]; [exact Hi|exfalso].
+        specialize (Hrest c Hino Hcall Hni).
+        destruct (t_entry_inv _ HT _ _ Hin) as [t0 [Ht0 _]]. rewrite Hc in Ht0. congruence.
+    + intros Hin. destruct (Hcs c Hin) as [Hino [Hcall Hret]].
+      destruct (Hdone c _ Hret) as [[_ E]|[_ [e [t0 [t1 [Hine [Hc _]]]]]]]; [discriminate E|].
+      rewrite Hino in Hine. apply in_map_iff. exists e. split; [exact Hc|].
+      apply filter_In. split; [exact Hine|]. unfold writer_b, mode_of. rewrite Hc, Hcall. reflexivity.
+Qed.
